@@ -10,8 +10,9 @@ From Coq Require Export List Arith Bool String Lia.
 Export ListNotations.
 
 Inductive why :=
-| Inbox           (* send into a node's inbox (capacity 2*incoming+1), drained by the node's run loop; after a cancellation
-                     each token sends at most once more before its flow sees the context (event nodes drop instead) *)
+| Inbox           (* ConsumeEvent / reset: send into an event node's inbox, drained by the node's run loop; once that loop has
+                     ended the node's `running` flag is off and the event is dropped instead (all other inbox sends are selects
+                     with a cancellation alternative: more tokens than the inbox holds may converge on one node) *)
 | Reply           (* send on a reply channel created with capacity 1 for exactly one answer *)
 | TracerInternal  (* handshakes of the tracer's own loop: the peer is waiting in SubscribeChannel/Unsubscribe, the
                      termination message has one sender and one receiver; delivery to a subscriber relies on the
@@ -32,56 +33,38 @@ Definition allowed : list (string * why) := [
   ("event_catch.go|*catchEvent.run|send|m.response <- flowAction{sequenceFlows: allSequenceFlows(&evt.outgoing)}#1"%string, Reply);
   ("event_catch.go|*catchEvent.run|send|actionChan <- noAction{}#1"%string, Reply);
   ("event_catch.go|*catchEvent.ConsumeEvent|send|evt.mch <- processEventMessage{event: ev}#1"%string, Inbox);
-  ("event_catch.go|*catchEvent.NextAction|send|evt.mch <- nextActionMessage{response: response, flow: flow}#1"%string, Inbox);
   ("event_catch.go|*catchEvent.reset|send|evt.mch <- resetMessage{}#1"%string, Inbox);
   ("event_end.go|*endEvent.run|send|m.response <- completeAction{}#1"%string, Reply);
   ("event_end.go|*endEvent.run|send|m.response <- completeAction{}#2"%string, Reply);
-  ("event_end.go|*endEvent.NextAction|send|evt.mch <- nextActionMessage{response: response}#1"%string, Inbox);
   ("event_start.go|*startEvent.run|send|m.response <- flowAction{sequenceFlows: allSequenceFlows(&evt.outgoing)}#1"%string, Reply);
   ("event_start.go|*startEvent.run|send|m.response <- completeAction{}#1"%string, Reply);
   ("event_start.go|*startEvent.ConsumeEvent|send|evt.mch <- eventMessage{event: ev}#1"%string, Inbox);
-  ("event_start.go|*startEvent.Trigger|send|evt.mch <- startMessage{}#1"%string, Inbox);
-  ("event_start.go|*startEvent.NextAction|send|evt.mch <- nextActionMessage{response: response, flow: flow}#1"%string, Inbox);
   ("event_throw.go|*throwEvent.run|send|m.response <- flowAction{sequenceFlows: allSequenceFlows(&evt.outgoing)}#1"%string, Reply);
   ("event_throw.go|*throwEvent.run|send|m.response <- completeAction{}#1"%string, Reply);
   ("event_throw.go|*throwEvent.ConsumeEvent|send|evt.mch <- eventMessage{event: ev}#1"%string, Inbox);
-  ("event_throw.go|*throwEvent.Trigger|send|evt.mch <- startMessage{}#1"%string, Inbox);
-  ("event_throw.go|*throwEvent.NextAction|send|evt.mch <- nextActionMessage{response: response, flow: flow}#1"%string, Inbox);
   ("gateway.go|distributeFlows|send|action <- completeAction{}#1"%string, Reply);
   ("gateway.go|distributeFlows|send|action <- flowAction{ sequenceFlows: sequenceFlows[i:rangeEnd], unconditionalFlows: indice#1"%string, Reply);
   ("gateway.go|distributeFlows|send|action <- completeAction{}#2"%string, Reply);
   ("gateway_event_based.go|*eventBasedGateway.run|send|ch <- true#1"%string, Reply);
   ("gateway_event_based.go|*eventBasedGateway.run|send|m.response <- action#1"%string, Reply);
-  ("gateway_event_based.go|*eventBasedGateway.NextAction|send|gw.mch <- nextActionMessage{response: response, flow: flow}#1"%string, Inbox);
-  ("gateway_exclusive.go|*exclusiveGateway.run|send|gw.mch <- m#1"%string, Inbox);
   ("gateway_exclusive.go|*exclusiveGateway.run|send|*response <- flowAction{ sequenceFlows: []*SequenceFlow{gw.defaultSequenceFlow}, unconditi#1"%string, Reply);
   ("gateway_exclusive.go|*exclusiveGateway.run|send|*response <- flowAction{ sequenceFlows: sfs, unconditionalFlows: []int{0}, }#1"%string, Reply);
   ("gateway_exclusive.go|*exclusiveGateway.run|send|m.response <- probeAction{ sequenceFlows: gw.nonDefaultSequenceFlows, probeReport: func(in#1"%string, Reply);
-  ("gateway_exclusive.go|*exclusiveGateway.run|send|gw.mch <- gatewayProbingReport{ result: indices, flowId: m.flow.Id(), }#1"%string, Inbox);
-  ("gateway_exclusive.go|*exclusiveGateway.NextAction|send|gw.mch <- nextActionMessage{response: response, flow: flow}#1"%string, Inbox);
-  ("gateway_inclusive.go|*inclusiveGateway.run|send|gw.mch <- m#1"%string, Inbox);
   ("gateway_inclusive.go|*inclusiveGateway.trySync|send|gw.activated.response <- probeAction{ sequenceFlows: gw.nonDefaultSequenceFlows, probeRepo#1"%string, Reply);
-  ("gateway_inclusive.go|*inclusiveGateway.trySync|send|gw.mch <- gatewayProbingReport{ result: indices, flowId: anId, }#1"%string, Inbox);
-  ("gateway_inclusive.go|*inclusiveGateway.NextAction|send|gw.mch <- nextActionMessage{response: response, flow: flow}#1"%string, Inbox);
-  ("gateway_parallel.go|*parallelGateway.NextAction|send|gw.mch <- nextActionMessage{response: response, flow: flow}#1"%string, Inbox);
   ("pkg/tracing/tracer.go|*tracer.run|send|sch.ok <- struct{}{}#1"%string, TracerInternal);
   ("pkg/tracing/tracer.go|*tracer.run|send|unsch.ok <- struct{}{}#1"%string, TracerInternal);
   ("pkg/tracing/tracer.go|*tracer.run|send|subscriber <- trace#1"%string, TracerInternal);
   ("pkg/tracing/tracer.go|*tracer.run|send|t.terminate <- struct{}{}#1"%string, TracerInternal);
-  ("pkg/tracing/tracer.go|*tracer.SubscribeChannel|send|t.subscription <- sub#1"%string, TracerInternal);
   ("pkg/tracing/tracer.go|*tracer.SubscribeChannel|recv|<-okCh#1"%string, TracerInternal);
   ("process.go|*Process.WaitUntilComplete|send|signal <- true#1"%string, Other);
-  ("process_set.go|*ProcessSet.tracerProcess|send|ps.mch <- throwMessage{Id: *eventId}#1"%string, Inbox);
   ("subprocess.go|*subProcess.run|send|m.response <- false#1"%string, Reply);
   ("subprocess.go|*subProcess.run|send|m.response <- true#1"%string, Reply);
   ("subprocess.go|*subProcess.run|send|m.response <- action#1"%string, Reply);
-  ("subprocess.go|*subProcess.NextAction|send|sp.mch <- nextActionMessage{response: response}#1"%string, Inbox);
-  ("subprocess.go|*subProcess.Cancel|send|sp.mch <- cancelMessage{response: response}#1"%string, Inbox);
+  ("subprocess.go|*subProcess.Cancel|send|response <- true#1"%string, Reply);
   ("task_generic.go|*genericTask.run|send|m.response <- true#1"%string, Reply);
   ("task_generic.go|*genericTask.run|send|m.response <- noAction{}#1"%string, Reply);
   ("task_generic.go|*genericTask.run|send|m.response <- flowAction{ response: rsp, sequenceFlows: allSequenceFlows(&task.outgoing), #1"%string, Reply);
-  ("task_generic.go|*genericTask.NextAction|send|task.mch <- msg#1"%string, Inbox);
-  ("task_generic.go|*genericTask.Cancel|send|task.mch <- cancelMessage{response: response}#1"%string, Inbox)
+  ("task_generic.go|*genericTask.Cancel|send|response <- true#1"%string, Reply)
 ].
 
 Definition is_allowed (k : string) : bool := existsb (fun p => String.eqb (fst p) k) allowed.
